@@ -117,6 +117,21 @@ Theorem C14_transparent_cursor : forall ap, ap_ok ap -> forall B, conforming B -
 Proof. exact conf_transparent_cursor. Qed.
 Print Assumptions C14_transparent_cursor.
 
+(* what the reader hands out stays what it was: whatever in-range reads and seeks follow (ops2), the results of the steps
+   already made (ops1) are still exactly what they were when they were handed out, and they are the slices of the
+   records - so pieces of a compressed file kept by the caller (the chunks of an iterator, the results of read / seek /
+   read) equal the pieces of the uncompressed file kept the same way.  The implementation's results are mutable buffers:
+   the correspondence check keeps every buffer of a history alive and compares it with the model after the history. *)
+Theorem C14_handed_out_results_persist : forall ap, ap_ok ap -> forall B, conforming B -> forall h vl fmt recs evl f g backends junk,
+  wf_las ap h vl fmt recs evl -> wf_laz ap B h vl fmt recs evl ->
+  file_of ap h vl fmt recs evl = Ok f -> B_file_of ap B h vl fmt recs evl = Ok g -> backends <> [] ->
+  exists rz s0, dec_header (g ++ junk) true = Ok rz /\ B_source B backends true rz (g ++ junk) = Ok s0
+    /\ forall ops1 ops2, ops_ok (len recs) 0 (ops1 ++ ops2) = true ->
+         firstn (length ops1) (snd (prun (B_pstep B) s0 (ops1 ++ ops2))) = snd (prun (B_pstep B) s0 ops1)
+         /\ firstn (length ops1) (snd (prun (B_pstep B) s0 (ops1 ++ ops2))) = snd (prun (spec_pstep recs) 0 ops1).
+Proof. exact conf_results_persist. Qed.
+Print Assumptions C14_handed_out_results_persist.
+
 (* a non-seekable source: any selection holding the serial variant works (a parallel entry that cannot construct is
    skipped), and the EVLRs are recovered from behind the stream *)
 Theorem C14_transparent_nonseekable : forall ap, ap_ok ap -> forall B, conforming B -> forall h vl fmt recs evl g backends junk,
